@@ -40,8 +40,24 @@ try:
             elif tc.find("skipped") is None:
                 passed.add(tid)
         res["suite_failed"] = len(failed)
-        res["new_failures"] = sorted(failed - base)[:10]
-        res["stable_pass_missing"] = len(stable - (passed - failed))
+        newf = sorted(failed - base)
+        missing = sorted(stable - (passed - failed))
+        # tests that share /tmp files or timers are flaky when several suites run at once: re-run them alone
+        still = []
+        for tid in sorted(set(newf) | set(missing))[:12]:
+            cls, _, name = tid.partition("::")
+            path = cls.replace(".", "/") + ".py"
+            okr = False
+            for _ in range(2):
+                r, o = sh("%s -m pytest -q -p no:cacheprovider --timeout=900 '%s::%s'" % (PY, path, name), cwd=wt, timeout=900)
+                if r == 0:
+                    okr = True
+                    break
+            if not okr:
+                still.append(tid)
+        res["new_failures_first_run"] = newf[:10]
+        res["new_failures"] = still
+        res["stable_pass_missing"] = len([t for t in missing if t in still])
     res["ok"] = bool(res.get("demo_clean_rc") == 0 and res.get("apply_rc") == 0 and res.get("demo_patched_rc") != 0 and res.get("imports_rc") == 0 and (not suite or (not res.get("new_failures") and res.get("stable_pass_missing") == 0)))
 finally:
     sh("git -C /repo worktree remove --force %s" % wt)
